@@ -84,6 +84,8 @@ def run(ctx) -> None:
     for u in real_units(ctx):
         if u.module.short in ("builtins", "heapq", "functools"):
             c06._census(sub_ctx, u)
+    ctx.rule("R02.10", "the scope around the source never suppresses: an exception raised while aggregating reaches the caller (R06.3, shared)")
+    c06._aexit_falsy(Relabel(ctx, "R02.10"))
     from . import tooltables
     tooltables.aggregate_tables(ctx, "R02.8")
     ctx.floor("agg_cells_decided", 600)
